@@ -7,7 +7,7 @@ Definition is_vnone (v : val) : bool := match v with VNone => true | _ => false 
 (* an explicit None that a dump dropping None entries loses: at the leaf itself, or in a field of a dataclass-typed
    value anywhere inside it — where the field default is not None, or where missing fields are not completed on the way
    back (fill mode FNo, see Model/C01Conf.v) *)
-Definition fill_of (m : mode) : fill := match m with Des f => f | Ser _ => FNo end.
+Definition fill_of (m : mode) : fill := match m with Des f _ => f | Ser _ => FNo end.
 
 Fixpoint none_loss (f : fill) (t : cty) (w : val) {struct t} : bool :=
   match t with
@@ -28,21 +28,35 @@ Fixpoint none_loss (f : fill) (t : cty) (w : val) {struct t} : bool :=
       end
   | CUnion ts =>
       (fix go (ts : list cty) : bool :=
-         match ts with [] => false | t1 :: ts' => none_loss (fill_of (sub_mode (Des f))) t1 w || go ts' end) ts
+         match ts with [] => false | t1 :: ts' => none_loss (fill_of (sub_mode (Des f VNone))) t1 w || go ts' end) ts
   | CList t1 =>
-      match seq_items w with Some l => existsb (none_loss (fill_of (item_mode (Des f) t1)) t1) l | None => false end
+      match seq_items w with Some l => existsb (none_loss (fill_of (item_mode (Des f VNone) t1)) t1) l | None => false end
   | CTupleVar t1 | CSet t1 =>
-      match seq_items w with Some l => existsb (none_loss (fill_of (sub_mode (Des f))) t1) l | None => false end
+      match seq_items w with Some l => existsb (none_loss (fill_of (sub_mode (Des f VNone))) t1) l | None => false end
   | CDict _ t1 =>
-      match w with VDict d => existsb (fun kv => none_loss (fill_of (sub_mode (Des f))) t1 (snd kv)) d | _ => false end
+      match w with VDict d => existsb (fun kv => none_loss (fill_of (sub_mode (Des f VNone))) t1 (snd kv)) d | _ => false end
   | CTuple ts =>
       match seq_items w with
       | Some l => (fix go (ts : list cty) (l : list val) : bool :=
                      match ts, l with
-                     | t1 :: ts', x :: l' => none_loss (fill_of (sub_mode (Des f))) t1 x || go ts' l'
+                     | t1 :: ts', x :: l' => none_loss (fill_of (sub_mode (Des f VNone))) t1 x || go ts' l'
                      | _, _ => false
                      end) ts l
       | None => false
+      end
+  | CSub cs =>
+      match w with
+      | VDict d =>
+          match dict_get (VStr k_class_path) d, dict_get (VStr k_init_args) d with
+          | Some (VStr cp), Some ia =>
+              (fix find (cs : list (str * cty)) : bool :=
+                 match cs with
+                 | [] => false
+                 | (p, t1) :: cs' => if str_eqb p cp then none_loss FAll t1 ia else find cs'
+                 end) cs
+          | _, _ => false
+          end
+      | _ => false
       end
   | _ => false
   end.
@@ -63,12 +77,23 @@ Variable yl : str -> option val.
    6 = comments-reemit                  : yaml_comments / --print_config=comments: the text is re-emitted by ruyaml
    7 = enum-member-null                 : an Enum member whose name is `null`
    8 = default-not-normalised           : the leaf holds its declared default, unvalidated, and that value is not what
-       the parser makes of its own serialisation (int default under Union[float,int], 'NULL' under Optional[str]) *)
+       the parser makes of its own serialisation (int default under Union[float,int], 'NULL' under Optional[str])
+   9 = skip-default-none-default-crash  : skip_default (nulls kept) with a subclass spec over the declared default None:
+       `default.get("class_path")` raises AttributeError
+   10 = skip-default-drops-dict-kwargs  : skip_default deletes a subclass spec whose class and init_args are the default's
+       although its dict_kwargs differ
+   11 = (no finding) skip_default pruned the init_args of a subclass spec: lossless by design (the parser restores them
+       from the default / the class), but outside the statement proved — a failure here is reported as a violation *)
 Definition skipdef_class (vr : variant) (lf : leaf) (w : val) : N :=
   if vr_skip_default vr then
     match cleanup yl true (vr_skip_none vr) (lf_ty lf) (lf_def lf) w,
           cleanup yl false (vr_skip_none vr) (lf_ty lf) (lf_def lf) (lf_def lf) with
-    | EPresent j, EPresent dj => if py_eq j dj then (if veq (lf_def lf) w then 0%N else 3%N) else 0%N
+    | EPresent j, EPresent dj =>
+        match trim (lf_ty lf) j dj with
+        | TErr => 9%N
+        | TDel => if veq (lf_def lf) w then 0%N else match spec_class j with Some _ => 10%N | None => 3%N end
+        | TKeep j' => if val_eqb j' j then 0%N else 11%N
+        end
     | _, _ => 0%N
     end
   else 0%N.
